@@ -416,7 +416,7 @@ func init() {
 			guard(r, func() { ruleFreeBitNonZero(r) })
 		}})
 	register(&PropSpec{ID: "C12",
-		Explanation: "Primary keys behave like a map — structural part. (C12.arms) key column Apply maintains the lookup table: insert on Put with the stored value as key, removal of the row's previous key on overwrite, removal of the stored key on Delete; (C12.paths) guard structure of InsertKey/UpsertKey/QueryKey/DeleteKey/SetKey; (L6) table accessed under the key lock; (C12.atomic) existence test and insertion form one atomic step; (C11.order) a put+delete of one row leaves no table entry." + staticNote,
+		Explanation: "Primary keys behave like a map — structural part. (C12.arms) key column Apply maintains the lookup table: insert on Put with the stored value as key, removal of the row's previous key on overwrite, removal of the stored key on Delete; (C12.paths) guard structure of InsertKey/UpsertKey/QueryKey/DeleteKey/SetKey; (L6) table accessed under the key lock; (C12.atomic) existence test and insertion form one atomic step; (C11.order) a put+delete of one row leaves no table entry; (L4) the fill list and the row counter next() relies on are maintained under the collection mutex — a stale counter hands out a live offset and the insert re-keys somebody's row." + staticNote,
 		NotDecided:  []string{"map semantics over histories"},
 		Assumptions: []string{assumeA1, assumeA3},
 		Run: func(r *Report) {
@@ -530,7 +530,7 @@ func init() {
 			guard(r, func() { ruleL2(r) }) // the scan hands out rows in the order of keys that commits are changing meanwhile (KF10; worse without any lock)
 		}})
 	register(&PropSpec{ID: "C17",
-		Explanation: "Rows expire only after their deadline — structural part only (all timing is not applicable). (C17.guard) edge-dominance in the cleanup: DeleteAt(row) only under ok ∧ now.After(deadline); ExpiresAt/TTL report a deadline only when stored and non-zero; selection With(expire); (C17.write) writers store now+ttl or 0, Extend is a queued merge; (C17.wiring) expire column created at construction, one cleanup goroutine with the configured interval that stops on close; (C09.queue) merge accessors queue deltas." + staticNote,
+		Explanation: "Rows expire only after their deadline — structural part only (all timing is not applicable). (C17.guard) edge-dominance in the cleanup: DeleteAt(row) only under ok ∧ now.After(deadline); ExpiresAt/TTL report a deadline only when stored and non-zero; selection With(expire); (C17.write) writers store now+ttl or 0, Extend is a queued merge; (C17.wiring) expire column created at construction, one cleanup goroutine with the configured interval that stops on close; (C09.queue) merge accessors queue deltas; (C08.read) the snapshot reads a block under that block's latch, so a deadline change in mid-commit is not recorded as applied." + staticNote,
 		NotDecided:  []string{"all timing ('within a few intervals')", "clock behaviour"},
 		Assumptions: []string{assumeA1},
 		Run: func(r *Report) {
